@@ -137,9 +137,25 @@ impl<'a> ExpressionEvaluator<'a> {
                     ));
                 };
 
-                Ok(vec![DataType::Bool(Bool(
-                    (inner[0] >= low[0] && inner[0] <= high[0]) != *negated,
-                ))])
+                // Three-valued logic: a comparison with NULL is unknown, and so is its negation.
+                let cmp = |holds: bool, a: &DataType, b: &DataType| {
+                    if matches!(a, DataType::Null) || matches!(b, DataType::Null) {
+                        None
+                    } else {
+                        Some(holds)
+                    }
+                };
+                let ge_low = cmp(inner[0] >= low[0], &inner[0], &low[0]);
+                let le_high = cmp(inner[0] <= high[0], &inner[0], &high[0]);
+                let between = match (ge_low, le_high) {
+                    (Some(false), _) | (_, Some(false)) => Some(false),
+                    (Some(true), Some(true)) => Some(true),
+                    _ => None,
+                };
+                Ok(vec![match between {
+                    Some(b) => DataType::Bool(Bool(b != *negated)),
+                    None => DataType::Null,
+                }])
             }
             BoundExpression::Exists { query, negated } => {
                 todo!("Subquery evaluation is not yet implemented")
@@ -163,9 +179,18 @@ impl<'a> ExpressionEvaluator<'a> {
                         "cannot apply unary operators to lists of values!".to_string(),
                     ));
                 };
-                Ok(vec![DataType::Bool(Bool(
-                    set.contains(&evaluated[0]) != *negated,
-                ))])
+                // Three-valued logic: NULL on either side makes a failed search unknown.
+                let value = &evaluated[0];
+                if matches!(value, DataType::Null) {
+                    return Ok(vec![DataType::Null]);
+                }
+                if set.contains(value) {
+                    return Ok(vec![DataType::Bool(Bool(!*negated))]);
+                }
+                if set.contains(&DataType::Null) {
+                    return Ok(vec![DataType::Null]);
+                }
+                Ok(vec![DataType::Bool(Bool(*negated))])
             }
             BoundExpression::Subquery { query, result_type } => {
                 todo!("Subquery evaluation is not yet implemented")
